@@ -16,14 +16,14 @@ def Accepted (O : Oracles) (opts : DeserOpts) (ign : Bool) (f : FieldDecl) (v : 
 
 theorem jsKws_numKws_inv (R S) (ctx : List (PyVal × PyVal)) (ty : String) (isInt : Bool) (o : NumOpts)
     (d : PyVal)
-    (hex : boolKw "exclusiveMaximum" ctx = o.exclMax) (hem : boolKw "exclusiveMinimum" ctx = false)
+    (hex : boolKw "exclusiveMaximum" ctx = exclEff o) (hem : boolKw "exclusiveMinimum" ctx = false)
     (h : jsKws R S ctx (numKws true ty isInt o) d = true) :
     typeIs ty d = true ∧
     (∀ q, jsNum d = some q →
       multOk o.mult q = true ∧ geMin (effMin isInt o) q = true ∧
       (match effMax isInt o with
        | none => true
-       | some hi => if o.exclMax then Q.lt q hi else Q.le q hi) = true) := by
+       | some hi => if exclEff o then Q.lt q hi else Q.le q hi) = true) := by
   simp only [numKws, jsKws_append, jsKws_optKw, and_true_iff'] at h
   obtain ⟨⟨⟨⟨h1, h2⟩, h3⟩, h4⟩, _⟩ := h
   constructor
@@ -34,10 +34,12 @@ theorem jsKws_numKws_inv (R S) (ctx : List (PyVal × PyVal)) (ty : String) (isIn
       | none => simp [multOk]
       | some m =>
         simp only [hm, Option.map, multKey, if_true] at h2
-        have hji : jsNum (PyVal.int m) = some (Q.ofInt m) := rfl
+        have hji : jsNum (absJ m) = some (Q.ofInt (Int.ofNat m.natAbs)) := rfl
         simp [jsKws, kw, kwOf, kwOfStr, kwNode, kwLeaf, hq, hji, isMult, Q.ofInt] at h2
         simp [multOk, Q.isMultipleOf]
-        simpa using h2
+        have := emod_natAbs_mul q.num m q.den
+        simp only [Int.ofNat_eq_natCast] at this
+        rw [← this]; exact h2
     · cases hm : effMin isInt o with
       | none => simp [geMin]
       | some m =>
@@ -52,7 +54,7 @@ theorem jsKws_numKws_inv (R S) (ctx : List (PyVal × PyVal)) (ty : String) (isIn
         obtain ⟨m', hm1, hm2, hm3⟩ := jsNum_numJ m
         simp only [hm, Option.map] at h4
         simp [jsKws, kw, kwOf, kwOfStr, kwNode, kwLeaf, hq, hm1, hex] at h4
-        cases he : o.exclMax with
+        cases he : exclEff o with
         | false => simp [he] at h4 ⊢; rw [Q_le_congr_right q m m' hm2 hm3] at h4; exact h4
         | true => simp [he] at h4 ⊢; rw [Q_lt_congr_right q m m' hm2 hm3] at h4; exact h4
 
@@ -63,7 +65,7 @@ theorem jsV_numKws_inv (R S) (ty : String) (isInt : Bool) (o : NumOpts) (d : PyV
       multOk o.mult q = true ∧ geMin (effMin isInt o) q = true ∧
       (match effMax isInt o with
        | none => true
-       | some hi => if o.exclMax then Q.lt q hi else Q.le q hi) = true) := by
+       | some hi => if exclEff o then Q.lt q hi else Q.le q hi) = true) := by
   rw [jsV_dict _ _ _ _ (getKw_ref_numKws ty isInt o)] at h
   exact jsKws_numKws_inv R S _ ty isInt o d (boolKw_exclMax_numKws ty isInt o)
     (boolKw_exclMin_numKws ty isInt o) h
@@ -113,19 +115,12 @@ theorem signOk_of_eff_int (o : NumOpts) (i : Int)
       | .any => true
       | .pos | .nonneg => o.min.isNone
       | .neg | .nonpos => o.max.isNone) = true)
-    (hopts : numOptsOk o = true)
     (hmin : geMin (effMin true o) (Q.ofInt i) = true)
     (hmax : (match effMax true o with
        | none => true
-       | some hi => if o.exclMax then Q.lt (Q.ofInt i) hi else Q.le (Q.ofInt i) hi) = true) :
+       | some hi => if exclEff o then Q.lt (Q.ofInt i) hi else Q.le (Q.ofInt i) hi) = true) :
     signOk o.sign (Q.ofInt i) = true ∧ geMin o.min (Q.ofInt i) = true
       ∧ leMax o.max o.exclMax (Q.ofInt i) = true := by
-  simp only [numOptsOk, and_true_iff'] at hopts
-  have hex : o.max = none → o.exclMax = false := by
-    intro hm
-    cases he : o.exclMax with
-    | false => rfl
-    | true => simp [he, hm] at hopts
   cases hs : o.sign <;> simp only [hs] at hsign
   · -- any
     refine ⟨rfl, ?_, ?_⟩
@@ -134,7 +129,7 @@ theorem signOk_of_eff_int (o : NumOpts) (i : Int)
       | some m => simpa [effMin, hm] using hmin
     · cases hm : o.max with
       | none => rfl
-      | some m => simpa [effMax, hm, leMax] using hmax
+      | some m => simpa [effMax, hm, leMax, exclEff] using hmax
   · -- pos
     have hm0 : o.min = none := by simpa using hsign
     refine ⟨?_, by simp [hm0, geMin], ?_⟩
@@ -142,11 +137,11 @@ theorem signOk_of_eff_int (o : NumOpts) (i : Int)
       simp [signOk, Q.lt, Q.ofInt]; omega
     · cases hm : o.max with
       | none => rfl
-      | some m => simpa [effMax, hm, leMax] using hmax
+      | some m => simpa [effMax, hm, leMax, exclEff] using hmax
   · -- neg
     have hm0 : o.max = none := by simpa using hsign
     refine ⟨?_, ?_, by simp [hm0, leMax]⟩
-    · simp [effMax, hm0, hs, hex hm0, Q.le, Q.ofInt] at hmax
+    · simp [effMax, hm0, hs, exclEff, Q.le, Q.ofInt] at hmax
       simp [signOk, Q.lt, Q.ofInt]; omega
     · cases hm : o.min with
       | none => rfl
@@ -154,7 +149,7 @@ theorem signOk_of_eff_int (o : NumOpts) (i : Int)
   · -- nonpos
     have hm0 : o.max = none := by simpa using hsign
     refine ⟨?_, ?_, by simp [hm0, leMax]⟩
-    · simp [effMax, hm0, hs, hex hm0] at hmax
+    · simp [effMax, hm0, hs, exclEff] at hmax
       simpa [signOk] using hmax
     · cases hm : o.min with
       | none => rfl
@@ -166,7 +161,7 @@ theorem signOk_of_eff_int (o : NumOpts) (i : Int)
       simpa [signOk] using hmin
     · cases hm : o.max with
       | none => rfl
-      | some m => simpa [effMax, hm, leMax] using hmax
+      | some m => simpa [effMax, hm, leMax, exclEff] using hmax
 
 /-! ### JSON equality refines Python equality on scalars -/
 
@@ -217,7 +212,7 @@ theorem bounds_of_eff_any (isInt : Bool) (o : NumOpts) (q : Q) (hs : o.sign = .a
     (hmin : geMin (effMin isInt o) q = true)
     (hmax : (match effMax isInt o with
        | none => true
-       | some hi => if o.exclMax then Q.lt q hi else Q.le q hi) = true) :
+       | some hi => if exclEff o then Q.lt q hi else Q.le q hi) = true) :
     geMin o.min q = true ∧ leMax o.max o.exclMax q = true := by
   constructor
   · cases hm : o.min with
@@ -225,7 +220,7 @@ theorem bounds_of_eff_any (isInt : Bool) (o : NumOpts) (q : Q) (hs : o.sign = .a
     | some m => simpa [effMin, hm] using hmin
   · cases hm : o.max with
     | none => rfl
-    | some m => simpa [effMax, hm, leMax] using hmax
+    | some m => simpa [effMax, hm, leMax, exclEff] using hmax
 
 theorem exact_integer (O : Oracles) (R S) (opts : DeserOpts) (ign : Bool) (o : NumOpts) (v : PyVal)
     (hf : exactScalar (.integer o) = true) (h : jsV R S (emit true (.integer o)) v = true) :
@@ -236,7 +231,7 @@ theorem exact_integer (O : Oracles) (R S) (opts : DeserOpts) (ign : Bool) (o : N
   cases v with
   | int i =>
     obtain ⟨hm, hmin, hmax⟩ := hb (Q.ofInt i) rfl
-    obtain ⟨hs, hmin', hmax'⟩ := signOk_of_eff_int o i hf.2 hf.1 hmin hmax
+    obtain ⟨hs, hmin', hmax'⟩ := signOk_of_eff_int o i hf.2 hmin hmax
     refine ⟨.int i, .int i, ?_, ?_⟩
     · simp [deser, PyVal.isNone, dValidated, vInteger, numOk_noSign o _ hm hmin' hmax']
     · simp [validate, vInteger, numOk_full o _ hm hmin' hmax' hs]
